@@ -10,12 +10,26 @@
 (* nodes at both poles, on the antimeridian, on the prime meridian, and    *)
 (* triangles and quadrilaterals.  TLC proves it well-formed (distinct      *)
 (* directions, every face convex and counter-clockwise, closed: every      *)
-(* directed side has its opposite) and prints it.                          *)
+(* directed side has its opposite, Euler) and prints it, for every K in    *)
+(* the constant set Ks.                                                    *)
+(*                                                                         *)
+(* Large K (rings 0.003 .. 0.2 degrees from the poles: K = 286, 573, 2865, *)
+(* 19099) overflow TLC's 32-bit integers in the determinants, so they are  *)
+(* covered by the scaled twin K = 1: CapMesh(K) is the image of CapMesh(1) *)
+(* under the linear map T = diag(1, 1, K) up to positive rescaling of      *)
+(* single vectors ((0,0,+-1) -> (0,0,+-K)).  det T = K > 0, so             *)
+(* Det(Ta, Tb, Tc) = K Det(a, b, c): every determinant sign in ConvexCCW   *)
+(* is the same; T is invertible, so distinct directions stay distinct; the *)
+(* face lists (hence closedness and Euler) do not depend on K.  Hence      *)
+(* WellFormed(1) <=> WellFormed(K) for every K >= 1.  TLC checks K = 1 and,*)
+(* directly, every K of Ks small enough (12, 57, 286, 573).  The harness   *)
+(* builds the large-K meshes from the printed K = 1 twin by applying T;    *)
+(* TLC only carries node ids.                                              *)
 (***************************************************************************)
 EXTENDS SphereZ, TLC
 
-CONSTANT K
-VARIABLE done
+CONSTANT Ks
+VARIABLE K          \* 0 before a twin is chosen
 
 \* 0: north pole, 1..4 north ring, 5..8 equator, 9..12 south ring, 13: south pole
 CapNodes == << <<0, 0, 1>>,
@@ -42,7 +56,8 @@ WellFormed ==
   /\ \A j, l \in 1..Len(CapFaces) : j # l => Sides(CapFaces[j]) \cap Sides(CapFaces[l]) = {}
   /\ Len(CapNodes) - Cardinality(AllSides) \div 2 + Len(CapFaces) = 2
 
-Init == done = FALSE
-Next == done = FALSE /\ done' = TRUE
-Emit == done => PrintT(<<"CAP", [nodes |-> CapNodes, faces |-> CapFaces, k |-> K]>>)
+Init == K = 0
+Next == K = 0 /\ K' \in Ks
+Checked == K > 0 => WellFormed
+Emit == K > 0 => PrintT(<<"CAP", [nodes |-> CapNodes, faces |-> CapFaces, k |-> K]>>)
 =============================================================================
